@@ -672,6 +672,32 @@ def exclusive_only(env, b, trail=()):
     return all(exclusive_only(env, cb, trail + (b.def_,)) for (cb, bi) in cs)
 
 
+def _crate_closure_param(env, b, sa, e):
+    """the callable invoked by event e is a parameter of the crate-private function b, and every call of b passes a closure
+    that is created in the crate (`self.with_iter(|it| it.next())`): not a user-supplied callable"""
+    if b.is_closure or (b.info or {}).get("exported") or e.kind != "call" or not e.args:
+        return False
+    f = e.args[0]
+    while f[0] in ("ref", "deref"):
+        f = f[1]
+    if f[0] != "param":
+        return False
+    callers = [(cb, cbb) for (cb, cbb) in all_callers(env, b.def_) if cb.def_ != b.def_]
+    if not callers:
+        return False
+    for (cb, cbb) in callers:
+        cctx = env.ctx(cb, env.F.impl_self_adt(cb) or sa, None)
+        args = cb.term(cbb)["args"]
+        if f[1] - 1 >= len(args):
+            return False
+        a = env.ev.operand(cctx, args[f[1] - 1])
+        while a[0] == "ref":
+            a = a[1]
+        if not (a[0] == "agg" and a[1].startswith("closure:")):
+            return False
+    return True
+
+
 def rule_cell(env, shared):
     """CELL: raw access to storage behind an UnsafeCell.
     (d) in a function that can run concurrently (`&self`), the pointer from UnsafeCell::get on shared storage is never
@@ -752,6 +778,10 @@ def rule_cell(env, shared):
                     continue
                 h = T.held(b, sa, e.bb)
                 k = "CELL.e|%s|user-callable(%s)" % (env.fname(b), e.callee.key if e.callee else "indirect")
+                if h[0] and _crate_closure_param(env, b, sa, e):
+                    out.append(Ob("CELL.e", k, "ok", e.loc(), "the callable is a parameter of this private helper and every caller "
+                                  "passes a closure of the crate (analysed as a body of its own)"))
+                    continue
                 if h[0]:
                     out.append(Ob("CELL.e", k, "viol", e.loc(),
                                   "a user-supplied callable runs while the ticket is held: it can panic or block with "
